@@ -229,6 +229,25 @@ def genName : Gen (List Nat) := do
     | _ => cs
   pure (padTo 16 cs)
 
+/-- boundary-biased value below `2^16` / `2^32` -/
+def rndWord : Gen Nat := do
+  if (← rnd 4) == 0 then pick [0, 1, 0xff, 0x100, 0x7fff, 0x8000, 0xfffe, 0xffff] else rnd 65536
+def rndDword : Gen Nat := do
+  if (← rnd 4) == 0 then pick [0, 1, 0xffff, 0x10000, 0x7fffffff, 0x80000000, 0xfffffffe, 0xffffffff]
+  else pure ((← rnd 65536) * 65536 + (← rnd 65536))
+def genPowerReading : Gen PowerReading := do
+  pure { current := ← rndWord, minimum := ← rndWord, maximum := ← rndWord, average := ← rndWord,
+         timestamp := ← rndDword, period := ← rndDword, state := ← pick [0x40, 0x00, 0xff, 0x41] }
+def dcmiPowerKeys : List Nat := [1, 2, 0, 0xff].flatMap fun m => [0, 1, 2, 0x7f, 0xff].map fun a => m * 256 + a
+/-- at most 8 sensors per entity: what ONE Get DCMI Sensor Info response can carry (the library under test does not
+page, Props/C07 `dcmi_sensor_ids_not_paged_counterexample`; larger populations are kept out of the run) -/
+def genDcmi : Gen Dcmi := do
+  let caps ← genMap [0, 1, 2, 3, 4, 5, 6, 0x80, 0xff] (do pure { revision := ← rndByte, data := ← rndBytes (← rnd 13) }) 3
+  let power ← genMap dcmiPowerKeys genPowerReading 3
+  let sensors ← genMap [0x40, 0x41, 0x42] (do (List.range (← pick [0, 1, 2, 3, 7, 8, 8])).mapM fun _ => rndWord) 4
+  pure { confMajor := ← pick [1, 1, 0, 2, 0xff], confMinor := ← pick [5, 1, 0, 0xff, ← rnd 256], caps := caps, power := power,
+         sensors := sensors }
+
 def genState : Gen BmcState := do
   let sensorKeys := lunPool.flatMap fun l => sensorPool.map fun n => sensorKey l n
   let ledKeys := fruPool.flatMap fun f => ledPool.map fun l => ledKey f l
@@ -248,7 +267,7 @@ def genState : Gen BmcState := do
     frus := ← genMap fruPool (do pure { active := ← rndBool, locked := ← rndBool, deactLocked := ← rndBool }),
     sigClass := ← genMap portKeys (rnd 16),
     powerChannels := ← genMap [1, 2, 3, 16] (do pure { status := ← rnd 128 }),
-    pmMaxChannel := ← pick [1, 16], pmGlobal := ← rnd 16, hpm := ← genHpm }
+    pmMaxChannel := ← pick [1, 16], pmGlobal := ← rnd 16, hpm := ← genHpm, dcmi := ← genDcmi }
 
 def mutate (fam : String) (s : BmcState) : Gen BmcState := do
   let sensorKeys := lunPool.flatMap fun l => sensorPool.map fun n => sensorKey l n
@@ -260,6 +279,7 @@ def mutate (fam : String) (s : BmcState) : Gen BmcState := do
   if all || fam == "leds" then s := { s with leds := ← genMap ledKeys genLed 8 }
   if all || fam == "fans" then s := { s with fans := ← genMap fruPool genFan 8 }
   if all || fam == "hpm" then s := { s with hpm := ← genHpm, pmGlobal := ← rnd 16 }
+  if all || fam == "dcmi" then s := { s with dcmi := ← genDcmi }
   if all || fam == "device" then s := { s with device := ← genDevice, watchdog := ← genWatchdog }
   if all || fam == "boot" then s := { s with bootParams := ← genBoot }
   if all || fam == "lan" then s := { s with lan := ← genLan, lanRev := ← genLanRev }
@@ -293,7 +313,8 @@ def normState (s : BmcState) : BmcState :=
            frus := s.frus.norm, sigClass := s.sigClass.norm, powerChannels := s.powerChannels.norm,
            hpm := { s.hpm with compDescr := s.hpm.compDescr.norm, compGeneral := s.hpm.compGeneral.norm,
                                compVersion := s.hpm.compVersion.norm, compRollback := s.hpm.compRollback.norm,
-                               compDeferred := s.hpm.compDeferred.norm } }
+                               compDeferred := s.hpm.compDeferred.norm },
+           dcmi := { s.dcmi with caps := s.dcmi.caps.norm, power := s.dcmi.power.norm, sensors := s.dcmi.sensors.norm } }
 
 def oneLine (s : String) : String := " ".intercalate ((s.splitOn "\n").map fun x => x.trimAscii.toString)
 def dumpState (s : BmcState) : String := oneLine (reprStr (normState s))
@@ -379,6 +400,10 @@ def showResult : Result → String
   | .hpmCaps v comps => s!"ver={v} comps=" ++ natList ((List.range 8).filter fun i => bitOf comps i)
   | .rollback st e => s!"status={st} pct={so e}"
   | .text cs => showText cs
+  | .dcmiCaps a b r d => s!"major={a} minor={b} rev={r} data={toHex d}"
+  | .powerReading p =>
+    s!"cur={p.current} min={p.minimum} max={p.maximum} avg={p.average} ts={p.timestamp} period={p.period} state={p.state}"
+  | .natList l => natList l
   | .error cc => s!"cc:{cc}"
 
 /-! ### parsing calls -/
@@ -479,6 +504,8 @@ def parseCall (op : String) (a : List String) : Option Call :=
   | "get_target_upgrade_capabilities", [] => some .getTargetUpgradeCapabilities
   | "query_selftest_results", [] => some .querySelftestResults
   | "query_rollback_status", [] => some .queryRollbackStatus
+  | "get_dcmi_capabilities", [sel] => do some (.getDcmiCapabilities (← pNat sel))
+  | "get_power_reading", [m, a] => do some (.getPowerReading (← pNat m) (← pNat a))
   | _, _ =>
     if op.startsWith "chassis_control_" then
       match chassisNames.idxOf? (op.drop 16).toString, a with
@@ -501,6 +528,7 @@ def specExtra (op : String) (a : List String) (s : BmcState) : Option String :=
     else some s!"cc:{ccHpmInvalidComponent}"
   | "find_component_id_by_descriptor", [h] => do
     some (so (find_component (← ofHex h) s))
+  | "get_dcmi_sensor_record_ids", [] => some (natList (get_dcmi_sensor_record_ids s))
   | _, _ => none
 
 /-- the model of one call and whether its arguments are inside `Call.InRange`: `set_ip_address_text <hex> <ch>` runs
@@ -516,6 +544,24 @@ def modelOf (v : PyIpmi.Model.Api.Variant) (op : String) (args : List String) :
       | _ => false
     some (PyIpmi.Model.Api.api_set_ip_address_text text ch, inr)
   | _, _ => (parseCall op args).map fun c => (PyIpmi.Model.Api.opOfV v c, inRangeB c)
+
+/-- operations modelled as a SEQUENCE of exchanges (outside `Spec.Bmc.Call`): run, requests, inside the domain of
+their theorem (`read_get_dcmi_sensor_record_ids_partial`: at most 8 sensors per entity) -/
+def seqModelOf (op : String) (args : List String) :
+    Option ((BmcState → BmcState × Outcome Result) × List (Outcome Req) × (BmcState → Bool)) :=
+  match op, args with
+  | "get_dcmi_sensor_record_ids", [] =>
+    some (PyIpmi.Model.Api.api_get_dcmi_sensor_record_ids, PyIpmi.Model.Api.dcmiSensorRequests,
+          fun s => [0x40, 0x41, 0x42].all fun e => decide ((get_dcmi_sensors 1 e s).length ≤ 8))
+  | _, _ => none
+
+def showReq : Outcome Req → String
+  | .ok r => s!"{r.netfn} {r.lun} {r.cmd} {toHex r.data}"
+  | e => e.tag
+
+def showRun : BmcState × Outcome Result → String
+  | (s', .ok r) => digest s' ++ " " ++ showResult r
+  | (s', e) => digest s' ++ " " ++ e.tag
 
 /-! ### the loop -/
 
@@ -575,6 +621,9 @@ def step (st : Insts) (line : String) : Insts × String :=
     | some s, some c => (st, dumpState (run c s).1)
     | _, _ => (st, "bad-op")
   | "model" :: i :: variant :: op :: args =>
+    match (pNat i).bind (st[·]?), seqModelOf op args with
+    | some s, some (f, _, _) => (st, showRun (f s))
+    | _, _ =>
     match (pNat i).bind (st[·]?), modelOf (.ofLetters variant) op args with
     | some s, some (x, _) =>
       match x.run s with
@@ -582,7 +631,11 @@ def step (st : Insts) (line : String) : Insts × String :=
       | (s', e) => (st, digest s' ++ " " ++ e.tag)
     | _, _ => (st, "bad-op")
   | "modelx" :: i :: variant :: op :: args =>
-    -- model + modelreq + domain in one round trip, separated by " | "
+    -- model + modelreq + domain in one round trip, separated by " | " (a sequence of requests: separated by " ; ")
+    match (pNat i).bind (st[·]?), seqModelOf op args with
+    | some s, some (f, reqs, dom) =>
+      (st, showRun (f s) ++ " | " ++ " ; ".intercalate (reqs.map showReq) ++ " | " ++ sb (dom s) ++ " " ++ sb (wfB s))
+    | _, _ =>
     match (pNat i).bind (st[·]?), modelOf (.ofLetters variant) op args with
     | some s, some (x, inr) =>
       let m := match x.run s with
@@ -598,6 +651,9 @@ def step (st : Insts) (line : String) : Insts × String :=
     | some s, some c => (st, sb (inRangeB c) ++ " " ++ sb (wfB s))
     | _, _ => (st, "bad-op")
   | "modelreq" :: variant :: op :: args =>
+    match seqModelOf op args with
+    | some (_, reqs, _) => (st, " ; ".intercalate (reqs.map showReq))
+    | none =>
     match modelOf (.ofLetters variant) op args with
     | some (x, _) =>
       match x.request with
